@@ -125,3 +125,16 @@ def untraced(fn):
     with NoTracing():
       return fn(*a, **kw)
   return wrapper
+
+
+_KF_ONLY = os.environ.get("VERIF_KF_ONLY") or None
+_KF_EXCLUDE = set(x for x in os.environ.get("VERIF_KF_EXCLUDE", "").split(",") if x)
+
+
+def kf_skip(cls):
+  """Known-finding classes (known_findings.txt): the main run skips inputs of
+  a recorded class (so that anything it finds is new); the directed run
+  (VERIF_KF_ONLY=<key>) looks at that class only."""
+  if _KF_ONLY:
+    return cls != _KF_ONLY
+  return cls in _KF_EXCLUDE
